@@ -208,6 +208,103 @@ def run(ctx):
         r, w = da.summary(name)
         ctx.check(not r, 'C11.R1', 'KmipEngine.%s|reads-transient' % name, m.site(m.methods[name], m.methods[name]),
                   'public method reads no transient field', 'public method outside the request prologue reads transient fields %s' % sorted(r))
+    # ---------------- C11.R3 the session object lives as long as the connection: what one message stores in it must not be read by the next
+    ctx.rule('C11.R3', 'KmipSession serves every request of a connection with one object: a session field stored outside __init__ (per-connection state) is stored on every path of _handle_message_loop before that method (or a helper it calls) reads it - the same definite-assignment analysis as R1, started at the per-message entry point. A limit, version or identity remembered from an earlier message of the connection would make the answer depend on more than the request itself')
+    from ..astutil import get_class, methods as _methods
+    from ..engmodel import SESSION
+    from ..inline import flat_methods as _flat
+
+    class _SessionModel:
+        pass
+    sm = _SessionModel()
+    scls = get_class(ctx.src.tree(SESSION), 'KmipSession')
+    sm.methods = dict(_flat(scls)[0])
+    ctx.need('_handle_message_loop' in sm.methods, 'anchor vanished: KmipSession._handle_message_loop')
+    sfields = transient_fields(sm)
+    sda = DefAssign(sm, sfields)
+    srbw, smw = sda.summary('_handle_message_loop')
+    ctx.analysed['session_fields_stored_outside_init'] = sorted(sfields)
+    # what is remembered must come from the message for it to carry one request into the next: a counter of the messages handled, or
+    # an object built from the session's own configuration and kept for reuse, depends on no request
+    init_only = set()
+    for mn_, fn_ in sm.methods.items():
+        for x_ in walk_local(fn_):
+            if is_self_attr(x_):
+                init_only.add(x_.attr)
+    init_only -= set(sfields)
+    graphs_ = {}
+
+    def independent(e, node, rd_, f, fn_, depth=0):
+        if depth > 12:
+            return False
+        if isinstance(e, ast.Constant):
+            return True
+        if is_self_attr(e):
+            return e.attr in init_only or e.attr == f or e.attr in sm.methods
+        if isinstance(e, ast.Name):
+            if e.id == 'self':
+                return False
+            params_ = {a.arg for a in fn_.args.posonlyargs + fn_.args.args + fn_.args.kwonlyargs}
+            local_ = params_ | {x.id for x in walk_local(fn_) if isinstance(x, ast.Name) and isinstance(x.ctx, (ast.Store, ast.Del))}
+            if e.id not in local_:
+                return True                      # a module, a class, a builtin
+            if e.id in params_:
+                return False
+            defs = rd_.reaching(node, e.id)
+            ok_ = bool(defs)
+            for _v, val, dn in defs:
+                if isinstance(val, ast.AST) and dn is not None:
+                    ok_ = ok_ and independent(val, dn, rd_, f, fn_, depth + 1)
+                elif isinstance(val, tuple) and val[0] in ('iter', 'unpack', 'aug') and dn is not None and isinstance(val[1], ast.AST):
+                    ok_ = ok_ and independent(val[1] if val[0] != 'aug' else val[1].value, dn, rd_, f, fn_, depth + 1)
+                else:
+                    ok_ = False
+            return ok_
+        if isinstance(e, (ast.Attribute, ast.Starred)):
+            return independent(e.value, node, rd_, f, fn_, depth + 1)
+        if isinstance(e, ast.Call):
+            if isinstance(e.func, ast.Attribute) and is_self_attr(e.func) and e.func.attr in sm.methods:
+                return False                     # a helper of the session that was not expanded: unknown
+            return independent(e.func, node, rd_, f, fn_, depth + 1) and all(independent(a, node, rd_, f, fn_, depth + 1) for a in e.args) and all(independent(k.value, node, rd_, f, fn_, depth + 1) for k in e.keywords)
+        if isinstance(e, (ast.BinOp, ast.BoolOp, ast.Compare, ast.UnaryOp, ast.IfExp, ast.Tuple, ast.List, ast.Dict, ast.Set, ast.Subscript, ast.JoinedStr, ast.FormattedValue, ast.Slice)):
+            return all(independent(x, node, rd_, f, fn_, depth + 1) for x in ast.iter_child_nodes(e) if isinstance(x, ast.expr))
+        return False
+
+    def store_is_independent(f, mn_, n_):
+        from ..dataflow import node_of_expr
+        fn_ = sm.methods[mn_]
+        if mn_ not in graphs_:
+            g_ = CFG(fn_)
+            graphs_[mn_] = (g_, ReachingDefs(g_))
+        g_, rd_ = graphs_[mn_]
+        st_ = n_
+        while st_ is not None and not isinstance(st_, (ast.Assign, ast.AugAssign, ast.Expr, ast.AnnAssign)):
+            st_ = getattr(st_, '_parent', None)
+        node = node_of_expr(g_, n_)
+        if st_ is None or node is None:
+            return False
+        exprs = []
+        if isinstance(st_, (ast.Assign, ast.AugAssign, ast.AnnAssign)) and st_.value is not None:
+            exprs.append(st_.value)
+            for tg in (st_.targets if isinstance(st_, ast.Assign) else [st_.target]):
+                if isinstance(tg, ast.Subscript):
+                    exprs.append(tg.slice)
+        elif isinstance(st_, ast.Expr) and isinstance(st_.value, ast.Call):
+            exprs += list(st_.value.args) + [k.value for k in st_.value.keywords]
+        else:
+            return False
+        return all(independent(e, node, rd_, f, fn_) for e in exprs)
+    for f in sorted(sfields):
+        if all(store_is_independent(f, mn_, n_) for mn_, n_, k_ in sfields[f]):
+            ctx.ok('C11.R3', '%s KmipSession field %s' % (SESSION, f), 'stored outside __init__, but from nothing a message carries (constants, the field itself, configuration given at construction): a counter / build-once object')
+            continue
+        site = '%s KmipSession._handle_message_loop field %s' % (SESSION, f)
+        where = sorted((lab, sorted(set(lines))) for (lab, ff), lines in sda.reads.items() if ff == f)
+        ctx.check(f not in srbw, 'C11.R3', 'KmipSession._handle_message_loop|%s' % f, site, 'stored before every read while handling one message',
+                  'session field %s is stored while a message is handled (%s) and can be read before it is stored again when the next message of the connection is handled (reads at %s): the earlier request reaches into the later one' % (
+                      f, ', '.join(sorted(set('%s:%s' % (mn, n_.lineno) for mn, n_, k_ in sfields[f]))), ', '.join('%s:%s' % (l, ls) for l, ls in where[:6])))
+    if not sfields:
+        ctx.ok('C11.R3', '%s KmipSession' % SESSION, 'no session field is stored outside __init__ (%d methods)' % len(sm.methods))
     # ---------------- C11.R2 (lifted from C10)
     ctx.rule('C11.R2', "the per-request prologue and everything that reads the per-request fields run inside one critical section (lifted from C10.R1/R2): otherwise another client's header overwrites identity, version, attribute policy and placeholder between two items of a batch")
     from ..report import Ctx as _LCtx_C11_R2
